@@ -11,6 +11,8 @@ mod cmd_sample;
 mod cmd_edge;
 mod cmd_matrix;
 mod cmd_history;
+mod cmd_gamma;
+mod cmd_integrate;
 mod scalars;
 
 pub fn f(b: u64) -> f64 {
@@ -60,6 +62,8 @@ fn main() {
         "edge" => cmd_edge::run(&input),
         "matrix" => cmd_matrix::run(&input),
         "history" => cmd_history::run(&input),
+        "gamma" => cmd_gamma::run(&input),
+        "integrate" => cmd_integrate::run(&input),
         _ => panic!("unknown command"),
     };
     println!("\n@@JSON@@{}", serde_json::to_string(&out).unwrap());
